@@ -9,6 +9,7 @@ import (
 	"io"
 	"log"
 	"os"
+	"time"
 
 	"github.com/brocaar/lorawan"
 	"github.com/jacobsa/crypto/cmac"
@@ -16,6 +17,7 @@ import (
 	"verifharness/internal/cases"
 	"verifharness/internal/cq"
 	"verifharness/internal/framefmt"
+	"verifharness/internal/micforge"
 	"verifharness/internal/noise"
 )
 
@@ -83,10 +85,12 @@ func tamper(r *cq.RNG, mic lorawan.MIC, how int) lorawan.MIC {
 	return mic
 }
 
-var hows = []string{"valid", "random", "bitflip"}
+var hows = []string{"valid", "random", "bitflip", "as-carried"}
 
 func upJoin(s *cases.Set, r *cq.RNG, p lorawan.PHYPayload, k lorawan.AES128Key, how int, kind string) {
 	step()
+	cases.Begin("Set/ValidateUplinkJoinMIC:"+framefmt.Phy(p, 0), nil)
+	defer cases.End()
 	oset, oval := cq.Err, cq.Err
 	func() {
 		defer func() {
@@ -96,8 +100,11 @@ func upJoin(s *cases.Set, r *cq.RNG, p lorawan.PHYPayload, k lorawan.AES128Key, 
 		}()
 		c := p
 		if err := c.SetUplinkJoinMIC(k); err == nil {
+			lastMIC = c.MIC
 			oset = cq.Ok(cq.Bytes(c.MIC[:]))
-			p.MIC = tamper(r, c.MIC, how)
+			if how != 3 {
+				p.MIC = tamper(r, c.MIC, how)
+			}
 		}
 	}()
 	t := framefmt.Phy(p, 0)
@@ -132,6 +139,8 @@ func upJoin(s *cases.Set, r *cq.RNG, p lorawan.PHYPayload, k lorawan.AES128Key, 
 
 func downJoin(s *cases.Set, r *cq.RNG, p lorawan.PHYPayload, ty lorawan.JoinType, je lorawan.EUI64, dn lorawan.DevNonce, k lorawan.AES128Key, how int, kind string) {
 	step()
+	cases.Begin("Set/ValidateDownlinkJoinMIC:"+framefmt.Phy(p, 0), nil)
+	defer cases.End()
 	oset, oval := cq.Err, cq.Err
 	func() {
 		defer func() {
@@ -141,8 +150,11 @@ func downJoin(s *cases.Set, r *cq.RNG, p lorawan.PHYPayload, ty lorawan.JoinType
 		}()
 		c := p
 		if err := c.SetDownlinkJoinMIC(ty, je, dn, k); err == nil {
+			lastMIC = c.MIC
 			oset = cq.Ok(cq.Bytes(c.MIC[:]))
-			p.MIC = tamper(r, c.MIC, how)
+			if how != 3 {
+				p.MIC = tamper(r, c.MIC, how)
+			}
 		}
 	}()
 	t := framefmt.Phy(p, 0)
@@ -177,6 +189,8 @@ func downJoin(s *cases.Set, r *cq.RNG, p lorawan.PHYPayload, ty lorawan.JoinType
 }
 
 func encrypt(p *lorawan.PHYPayload, k lorawan.AES128Key) (s string) {
+	cases.Begin("EncryptJoinAcceptPayload:"+framefmt.Phy(*p, 0), nil)
+	defer cases.End()
 	defer func() {
 		if e := recover(); e != nil {
 			s = cq.Panic
@@ -189,6 +203,8 @@ func encrypt(p *lorawan.PHYPayload, k lorawan.AES128Key) (s string) {
 }
 
 func decrypt(p *lorawan.PHYPayload, k lorawan.AES128Key) (s string) {
+	cases.Begin("DecryptJoinAcceptPayload:"+framefmt.Phy(*p, 0), nil)
+	defer cases.End()
 	defer func() {
 		if e := recover(); e != nil {
 			s = cq.Panic
@@ -291,6 +307,68 @@ func aesDecCase(s *cases.Set, k, b []byte, name string) {
 		Replay: map[string]interface{}{"api": "crypto/aes Decrypt", "key": hx(k), "block": hx(b), "observed": hx(o)}})
 }
 
+var lastMIC lorawan.MIC // the MIC the previous Set* call computed
+var forged, forgedHit int
+
+// forgeRejoin builds a rejoin-request type 0 / 2 whose CORRECT MIC under key k is `want`. The MIC message
+// MHDR | RejoinType | NetID | DevEUI | RJCount0 has 15 bytes, i.e. one padded CMAC block m | 0x80: the block is
+// solved from the wanted tag (internal/micforge) and the 12 free tag bytes are varied until the block has the pad
+// byte, the MHDR of a rejoin-request and RejoinType 0 or 2 (about 2^21 AES operations).
+func forgeRejoin(r *cq.RNG, k lorawan.AES128Key, want lorawan.MIC) (lorawan.PHYPayload, bool) {
+	c := micforge.New(k)
+	var tag, zero [16]byte
+	copy(tag[:4], want[:])
+	for i := 0; i < 60000000; i++ {
+		x := r.U64()
+		for j := 0; j < 8; j++ {
+			tag[4+j] = byte(x >> (8 * uint(j)))
+		}
+		tag[12], tag[13], tag[14], tag[15] = byte(i), byte(i>>8), byte(i>>16), byte(i>>24)
+		m := c.PaddedBlock(zero, tag)
+		if m[15] != 0x80 || m[0]&0xfc != 0xc0 || (m[1] != 0 && m[1] != 2) {
+			continue
+		}
+		pl := &lorawan.RejoinRequestType02Payload{RejoinType: lorawan.JoinType(m[1]), RJCount0: uint16(m[13]) | uint16(m[14])<<8}
+		for j := 0; j < 3; j++ {
+			pl.NetID[2-j] = m[2+j]
+		}
+		for j := 0; j < 8; j++ {
+			pl.DevEUI[7-j] = m[5+j]
+		}
+		return lorawan.PHYPayload{MHDR: lorawan.MHDR{MType: lorawan.RejoinRequest, Major: lorawan.Major(m[0] & 3)}, MACPayload: pl}, true
+	}
+	return lorawan.PHYPayload{}, false
+}
+
+// specialMICs: (a) rejoin-requests constructed so that their correct MIC is 00000000, ffffffff, 00000001, the MIC of
+// the previous case (Set must give it, Validate of the frame carrying it must be true); (b) join-accepts carrying
+// these MIC values through EncryptJoinAcceptPayload / DecryptJoinAcceptPayload (the MIC is plain data to them) and
+// through Set/ValidateDownlinkJoinMIC.
+func specialMICs(s *cases.Set, r *cq.RNG, rounds int) {
+	for round := 0; round < rounds; round++ {
+		for wi, want := range []lorawan.MIC{{}, {0xff, 0xff, 0xff, 0xff}, {0, 0, 0, 1}, lastMIC} {
+			name := []string{"00000000", "ffffffff", "00000001", "previous"}[wi]
+			k := key(r)
+			if p, ok := forgeRejoin(r, k, want); ok {
+				forged++
+				upJoin(s, r, p, k, 0, "forged-mic-"+name)
+				if lastMIC == want {
+					forgedHit++
+				}
+			}
+			for kind := 0; kind < 3; kind++ { // the three CFList shapes are drawn by JoinFrame
+				ja := framefmt.JoinFrame(r, 1)
+				ja.MIC = want
+				ek := key(r)
+				encCases(s, ja, ek, "special-mic-"+name)
+				downJoin(s, r, ja, joinTypes[(round+kind)%4], eui(r), lorawan.DevNonce(r.Intn(65536)), key(r), 3, "special-mic-"+name)
+			}
+		}
+	}
+	s.Extra["forged_mic_frames"] = forged
+	s.Extra["forged_mic_frames_whose_set_mic_is_the_wanted_value"] = forgedHit
+}
+
 // badFrame: a frame on which the MIC / encryption functions fail (the payload refuses to marshal, or is missing).
 func badFrame(r *cq.RNG, which int) lorawan.PHYPayload {
 	switch which % 4 {
@@ -349,7 +427,7 @@ func main() {
 	r := cq.NewRNG(seed)
 	nr = cq.NewRNG(seed ^ 0x9e3779b97f4a7c15)
 	s := cases.New("C04", dir, "LW.Corr.C04",
-		"RFC 4493 examples and the FIPS-197 C.1 decryption first; corpus: join-accept with channel-mask CFList [m0; 0] (C04-1). Join-request and rejoin-request types 0, 1, 2 (palindromic EUIs in 25%), carried MIC valid / random / bit-flipped; join-accept frames with OptNeg both ways, CFList absent / 5 channels / 1..6 masks, JoinNonce 0 and 2^24-1 boundaries, all four JoinReqType values cycled, palindromic and non-palindromic JoinEUI, DevNonce boundaries; EncryptJoinAcceptPayload (device-side aes.Encrypt check in Go and in Coq), Decrypt with the same and with another key, malformed inputs (wrong payload types, lengths not 16/32, JoinNonce >= 2^24). History: unrelated library calls (internal/noise) before every compared call; fail-then-valid families run back to back (a failing Set/Validate/Encrypt call - rejoin payload with the wrong RejoinType, JoinNonce >= 2^24, nil payload - immediately followed by a valid uplink join MIC, join-accept MIC and encryption, and the first valid call again), each compared with model and specification; every MIC call is repeated three times later in the process (reverse, same, shuffled order) and must give its first result. Distinct by construction (random keys) except the repeated calls.")
+		"RFC 4493 examples and the FIPS-197 C.1 decryption first; corpus: join-accept with channel-mask CFList [m0; 0] (C04-1). Join-request and rejoin-request types 0, 1, 2 (palindromic EUIs in 25%), carried MIC valid / random / bit-flipped; join-accept frames with OptNeg both ways, CFList absent / 5 channels / 1..6 masks, JoinNonce 0 and 2^24-1 boundaries, all four JoinReqType values cycled, palindromic and non-palindromic JoinEUI, DevNonce boundaries; EncryptJoinAcceptPayload (device-side aes.Encrypt check in Go and in Coq), Decrypt with the same and with another key, malformed inputs (wrong payload types, lengths not 16/32, JoinNonce >= 2^24). Special MIC values: rejoin-requests type 0/2 CONSTRUCTED (internal/micforge: the single padded CMAC block solved from the tag, ~2^21 trials for pad byte, MHDR and RejoinType) so that their correct MIC is 00000000, ffffffff, 00000001 or the MIC of the previous case; join-accepts carrying these four MIC values through Encrypt / Decrypt (round trip) and Set/Validate. History: unrelated library calls (internal/noise) before every compared call; fail-then-valid families run back to back (a failing Set/Validate/Encrypt call - rejoin payload with the wrong RejoinType, JoinNonce >= 2^24, nil payload - immediately followed by a valid uplink join MIC, join-accept MIC and encryption, and the first valid call again), each compared with model and specification; every MIC call is repeated three times later in the process (reverse, same, shuffled order) and must give its first result. Distinct by construction (random keys) except the repeated calls.")
 	s.ShardSize = 150
 	n := 400
 	if thorough {
@@ -382,6 +460,14 @@ func main() {
 			k[i] = byte(i + 1)
 		}
 		encCases(s, p, k, "corpus")
+	}
+	s.Watchdog(3 * time.Second)
+	{
+		rounds := 1
+		if thorough {
+			rounds = 12
+		}
+		specialMICs(s, r, rounds)
 	}
 	for i := 0; i < n; i++ {
 		how := i % 3
